@@ -2,7 +2,7 @@ SPECIFICATION Spec
 CONSTANTS
   MaxNodes = 4
   WriteEps = {"msgpack", "lp_v1", "lp_v2", "lp_simple", "tle"}
-  QueryEps = {"query", "query_msgpack", "estimate"}
+  QueryEps = {"query", "query_msgpack", "estimate", "arrow"}
   NoPrologue = {}
   Emit = FALSE
 INVARIANTS TypeOK Safety
